@@ -41,6 +41,9 @@ CONFIGS = {
     "v2": dict(cc="cc", cflags=["-std=gnu11", "-O2", "-g", "-DNDEBUG", "-fPIC", "-march=x86-64-v2"]),
     "bmi": dict(cc="cc", cflags=["-std=gnu11", "-O2", "-g", "-DNDEBUG", "-fPIC", "-march=x86-64-v2", "-mbmi", "-mbmi2",
                                  "-mlzcnt", "-mf16c", "-mfma", "-mmovbe"]),
+    # the two documented compile-time switches of the split-full headers (grow-shrink-grow for a 255-value range)
+    "maxrange": dict(cc="cc", cflags=["-std=gnu11", "-O2", "-g", "-DNDEBUG", "-fPIC", "-mtune=native",
+                                      "-DVARINT_SPLIT_FULL_USE_MAXIMUM_RANGE", "-DVARINT_SPLIT_FULL_NO_ZERO_USE_MAXIMUM_RANGE"]),
     # the Release flags of the repository's CMakeLists (-O3)
     "o3": dict(cc="cc", cflags=["-std=gnu11", "-O3", "-DNDEBUG", "-fPIC", "-mtune=native"]),
     # second, independent memory oracle
@@ -77,15 +80,17 @@ CHECKS = {}
 def scalar(prop, rule, expl, dl_quick=100, dl_thorough=1500, configs=None):
     CHECKS[prop] = dict(
         name="scalar", harness=["checks/scalar.c"], libs=LIBS_SCALAR,
-        configs=configs or {"quick": ["pinned", "debug", "asan", "native"], "thorough": ["pinned", "debug", "asan", "native", "v2", "bmi", "o3"]},
-        shards={"pinned": 16, "debug": 8, "asan": 8, "native": 8, "v2": 8, "bmi": 8, "o3": 8},
+        configs=configs or {"quick": ["pinned", "debug", "asan", "native", "maxrange"], "thorough": ["pinned", "debug", "asan", "native", "v2", "bmi", "o3", "maxrange"]},
+        shards={"pinned": 16, "debug": 8, "asan": 8, "native": 8, "v2": 8, "bmi": 8, "o3": 8, "maxrange": 8},
         deadline={"quick": dl_quick, "thorough": dl_thorough},
         # exhaustive prefix [0,2^P): P=32 in the optimised builds, 28 in the slow (unoptimised / sanitised) ones
         tier_env={"quick": {"pinned": {"VERIF_PREFIX_BITS": "24"}, "debug": {"VERIF_PREFIX_BITS": "22"},
-                            "asan": {"VERIF_PREFIX_BITS": "22"}, "native": {"VERIF_PREFIX_BITS": "22"}},
+                            "asan": {"VERIF_PREFIX_BITS": "22"}, "native": {"VERIF_PREFIX_BITS": "22"},
+                            "maxrange": {"VERIF_PREFIX_BITS": "24"}},
                   "thorough": {"debug": {"VERIF_PREFIX_BITS": "28"}, "asan": {"VERIF_PREFIX_BITS": "28"},
                                "v2": {"VERIF_PREFIX_BITS": "28"}, "bmi": {"VERIF_PREFIX_BITS": "28"},
-                               "o3": {"VERIF_PREFIX_BITS": "28"}, "native": {"VERIF_PREFIX_BITS": "30"}}},
+                               "o3": {"VERIF_PREFIX_BITS": "28"}, "native": {"VERIF_PREFIX_BITS": "30"},
+                               "maxrange": {"VERIF_PREFIX_BITS": "28"}}},
         rule=rule, explanation=expl,
         assumptions=["reference encoders in /verif/ref are trusted (written from the documented formats)",
                      "2^64 values are covered exhaustively only below 2^P and over the stated alphabets beyond"],
